@@ -145,6 +145,22 @@ def run(chk):
             chk.violation("impl", "sspoc-selection-invalid", f"SSPOC selected {sel} with n_sensors={nsv}", {**case, "observed": sel})
         exprs.append(f"case_sspoc {n} {nsv} {C.cnatlist(sel)}")
         meta.append(("sspoc", case, {"sel": sel, "n_sensors": nsv}))
+        # the same invariants after later updates on the same object (counts down to 0 and back, thresholds)
+        for upd in ({"n_sensors": int(rng.integers(0, n + 1))}, {"n_sensors": 0}, {"threshold": float(rng.integers(0, 9)) / 8.0},
+                    {"n_sensors": np.int64(0)}, {"n_sensors": int(rng.integers(1, n + 1))}):
+            try:
+                impl.quiet(model.update_sensors, quiet=True, **upd)
+                sel2 = [int(i) for i in model.selected_sensors]
+                ns2 = int(model.n_sensors)
+            except Exception as e:
+                chk.count("update-rejected:" + impl.exc_class(e))
+                continue
+            case2 = {**case, "then": {k: (int(v) if k == "n_sensors" else v) for k, v in upd.items()}}
+            chk.case(case2)
+            if len(set(sel2)) != len(sel2) or any(i < 0 or i >= n for i in sel2) or len(sel2) != ns2:
+                chk.violation("impl", "sspoc-selection-invalid", f"after update_sensors({upd}) SSPOC selected {sel2} with n_sensors={ns2}", {**case2, "observed": sel2})
+            exprs.append(f"case_sspoc {n} {ns2} {C.cnatlist(sel2)}")
+            meta.append(("sspoc", case2, {"sel": sel2, "n_sensors": ns2}))
 
     # ---- stage M
     shard = 400
